@@ -65,6 +65,24 @@ f1 = FloatRegister("f1", num=1)
 FloatRegister.registers = (f0, f1)
 num_float_reg_map = {r.num: r for r in FloatRegister.registers}
 
+
+class BooleanRegister(Register):
+    """One of the sixteen 1-bit boolean registers b0..b15 (boolean option)"""
+
+    bitsize = 1
+
+    @classmethod
+    def from_num(cls, num):
+        return num_boolean_reg_map[num]
+
+
+BooleanRegister.registers = tuple(
+    BooleanRegister(f"b{n}", num=n) for n in range(16)
+)
+b0, b1, b2, b3, b4, b5, b6, b7 = BooleanRegister.registers[:8]
+b8, b9, b10, b11, b12, b13, b14, b15 = BooleanRegister.registers[8:]
+num_boolean_reg_map = {r.num: r for r in BooleanRegister.registers}
+
 register_classes = [
     RegisterClass(
         "reg",
